@@ -190,6 +190,18 @@ def run(spec, ctx):
                         ctx.case(h("magnitude", base, steps, offset, suffix))
                         check(ctx, base, steps, offset, suffix)
                         n += 1
+        # step counts of two and three digits: bases 9 .. 130 tokens deep, steps around every change in the number of digits
+        for depth in (9, 10, 11, 12, 20, 21, 99, 100, 101, 130):
+            base = tuple(["a", "3", "k", "0"][i % 4] for i in range(depth - 1)) + ("7",)
+            for steps in sorted({0, 1, 8, 9, 10, 11, 12, 19, 20, 21, 90, 99, 100, 101, 110, depth - 1, depth, depth + 1, depth + 10}):
+                if steps < 0:
+                    continue
+                for offset in (0, 1, -3, 10, -12):
+                    for suffix in ("", "#", "/x/0"):
+                        ctx.case(h("deep", depth, steps, offset, suffix))
+                        ctx.count("applications_with_step_counts_of_two_or_three_digits", int(steps >= 10))
+                        check(ctx, base, steps, offset, suffix)
+                        n += 1
         # bases that only exist as token lists (an index beyond what pointer text may hold)
         for idx in (2 ** 53, 2 ** 60, 2 ** 64 + 5, 10 ** 30):
             for offset in (1, -1, 12, -(2 ** 53), 10 ** 20):
